@@ -63,7 +63,7 @@ def meta(tier):
                 'the four formats, each decoded independently, plus two images of the window that starts inside the first multi-byte statement (-s), which must hold the same bytes from there on, and the listing / hex dump / Intel HEX requested together with that window, which must still agree with the image from the window start on; the listing rows are also compared with the reference lines '
                 '(each statement once, its address, its bytes, nothing for muted lines); non-trivial = program with a gap, a muted '
                 'byte or a line longer than 6 bytes; plus (16-bit) every history up to depth 5 (thorough 6) over {#mute, #unmute, a byte, an include of a plain file, of a file that unmutes, of a file that mutes}: '
-                'mutes are counted across include boundaries in both directions; states = distinct memory maps',
+                'mutes are counted across include boundaries in both directions; plus the repository\'s 26 example programs under their own definitions (formats vs image, with and without a window); states = distinct memory maps',
         'bounds': {'alphabet': [R.render_stmt(s) for s in sigma(0, 0xFFF0)], 'depth': 3 if q else 4, 'address_widths': [8, 12, 16, 24, 32],
                    'formats': FORMATS},
         'assumptions': ['the compact format cannot state the address of its first data line unless an origin precedes it: the decoder '
@@ -185,6 +185,38 @@ def shard(acc, tier, idx, n):
             examine(acc, isa, params, bits, h, files, len(h) == depth)
         if bits == 16:
             mute_nesting(acc, isa, params, bits, idx, n, q)
+    corpus_programs(acc, idx, n)
+
+
+def corpus_programs(acc, idx, n):
+    """The example programs shipped with the repository under their own instruction-set definitions (4- to 16-bit addresses,
+    predefined data, includes, strings, macros): the four formats, decoded independently, describe the memory the image holds, also
+    when they are requested together with a window that starts one byte into the program."""
+    from mc import corpus
+    for i, prog in enumerate(corpus.programs()):
+        if i % n != idx:
+            continue
+        cases = [corpus.case_for(prog, fill=0), corpus.case_for(prog, fill=0xFF)] + [corpus.case_for(prog, pretty=f) for f in FORMATS]
+        outs = [acc.run(c) for c in cases]
+        acc.transition(len(cases))
+        if any(o.status != 'OK' for o in outs[:2]):
+            acc.dc(f'example program {prog[0]} is not assembled by this tree')
+            continue
+        mem = truth_from_images(outs[0].image, outs[1].image)
+        wstart = (min(mem) + 1) if mem else None
+        if wstart is not None:
+            more = [corpus.case_for(prog, fill=0, start=wstart), corpus.case_for(prog, fill=0xFF, start=wstart)] + \
+                   [corpus.case_for(prog, pretty=f, start=wstart) for f in FORMATS]
+            cases += more
+            outs += [acc.run(c) for c in more]
+            acc.transition(len(more))
+        spec = {'type': 'formats', 'rows': None, 'window_start': wstart, 'program': prog[0]}
+        msg = check_formats(spec, outs)
+        if msg:
+            acc.violation(cases, spec, f'example program {prog[0]}: {msg}', outs)
+        acc.state(('corpus', prog[0]))
+        for f in FORMATS:
+            acc.judge(clause=f, nontrivial_key=('corpus', prog[0], f))
 
 
 def mute_nesting(acc, isa, params, bits, idx, n, q):
